@@ -129,9 +129,28 @@ Definition selector (sd : dict) (v : bytes) : N := N.of_nat (index_of v (map fst
 
 Definition nlen {A} (l : list A) : N := N.of_nat (List.length l).
 
+(* makeDict = iterate the Go map (in whatever order) and sortDict it: by value
+   comparison, ties broken by the bytes.  [less] is that combined order on the
+   value bytes of one column type; insertion sort stands for sort.Slice. *)
+Section Sort.
+  Variable less : bytes -> bytes -> bool.
+
+  Fixpoint dict_insert (e : bytes * N) (l : dict) : dict :=
+    match l with
+    | [] => [e]
+    | x :: r => if less (fst e) (fst x) then e :: l else x :: dict_insert e r
+    end.
+
+  Definition sort_dict (d : dict) : dict := fold_right dict_insert [] d.
+End Sort.
+
+(* [iter d]: the order in which one range over the Go map yields its entries *)
+Definition make_dict (less : bytes -> bytes -> bool) (iter : dict -> dict) (d : dict) : dict :=
+  sort_dict less (iter d).
+
 Section Order.
-  (* sortDict (by value comparison) is applied to the Go map twice, independently:
-     in makeDictVector (selectors) and in Metadata (the stored entries). *)
+  (* makeDict is called twice, independently: in makeDictVector (selectors)
+     and in Metadata (the stored entries). *)
   Variable order_sel : dict -> dict.
   Variable order_meta : dict -> dict.
 
@@ -182,13 +201,17 @@ Fixpoint somes (l : list body) : list bytes :=
   | Some v :: r => v :: somes r
   end.
 
-Definition col_encode (order_sel order_meta : dict -> dict) (maxdict : nat) (small : bool) (l : list body) : cmeta :=
+Definition col_encode_gen (order_sel order_meta : dict -> dict) (maxdict : nat) (small : bool) (l : list body) : cmeta :=
   let s := nulls_state (map is_null l) in
   let p := prim_encode order_sel order_meta maxdict small (somes l) in
   match nulls_finish s with
   | None => CVals p
   | Some runs => CNulls runs (ns_count s) p
   end.
+
+Definition col_encode (less : bytes -> bytes -> bool) (iter1 iter2 : dict -> dict)
+           (maxdict : nat) (small : bool) (l : list body) : cmeta :=
+  col_encode_gen (make_dict less iter1) (make_dict less iter2) maxdict small l.
 
 (* both readers put the next value into each non-null slot *)
 Fixpoint merge (bits : list bool) (vals : list bytes) : option (list body) :=
@@ -242,13 +265,18 @@ Inductive ometa :=
 | OSingle (t : tyid) (c : cmeta)
 | ODyn (types : list tyid) (tags : list N) (cs : list cmeta) (len : N).
 
-Definition obj_encode (order_sel order_meta : dict -> dict) (maxdict : nat) (small : tyid -> bool) (vs : list value) : ometa :=
+Definition obj_encode_gen (order_sel order_meta : tyid -> dict -> dict) (maxdict : nat) (small : tyid -> bool) (vs : list value) : ometa :=
   let w := which vs in
-  let cs := map (fun t => col_encode order_sel order_meta maxdict (small t) (column_of t vs)) w in
+  let cs := map (fun t => col_encode_gen (order_sel t) (order_meta t) maxdict (small t) (column_of t vs)) w in
   match w, cs with
   | [t], [c] => OSingle t c
   | _, _ => ODyn w (map (fun v => N.of_nat (tag_of w (fst v))) vs) cs (nlen vs)
   end.
+
+(* [less t]: the value order of the column type t *)
+Definition obj_encode (less : tyid -> bytes -> bytes -> bool) (iter1 iter2 : dict -> dict)
+           (maxdict : nat) (small : tyid -> bool) (vs : list value) : ometa :=
+  obj_encode_gen (fun t => make_dict (less t) iter1) (fun t => make_dict (less t) iter2) maxdict small vs.
 
 Fixpoint set_nth {A} (l : list A) (k : nat) (x : A) : list A :=
   match l, k with
